@@ -353,4 +353,70 @@ theorem C17_mqtt_topic (topic pre post : Str) (hpre : '{' ∉ pre) (hpost : '{' 
 example : fillTemplate ['x'] (['r', '/'] ++ idPat ++ ['/', 'z']) = ['r', '/', 'x', '/', 'z'] :=
   C17_mqtt_topic _ _ _ (by decide) (by decide)
 
+/-! ### ingress metadata is the register's, at the moment of publishing -/
+
+theorem Registry.get_update_self (reg : Registry) (id : Nat) (new : IngressInfo) :
+    (reg.update id new).get id = some (match reg.get id with | some old => old.merge new | none => new) := by
+  induction reg with
+  | nil => simp [Registry.update, Registry.get]
+  | cons e es ih =>
+    by_cases h : e.1 = id
+    · simp [Registry.update, Registry.get, h]
+    · simp only [Registry.update, h, ↓reduceIte]
+      simp only [Registry.get, List.find?_cons, h, decide_false] at ih ⊢
+      exact ih
+
+theorem Registry.get_update_other (reg : Registry) (id id' : Nat) (new : IngressInfo) (h : id' ≠ id) :
+    (reg.update id new).get id' = reg.get id' := by
+  induction reg with
+  | nil => simp [Registry.update, Registry.get, Ne.symm h]
+  | cons e es ih =>
+    by_cases he : e.1 = id
+    · have : ¬ e.1 = id' := fun e' => h (e'.symm.trans he)
+      simp [Registry.update, Registry.get, he, this, Ne.symm h]
+    · simp only [Registry.update, he, ↓reduceIte]
+      by_cases he' : e.1 = id'
+      · simp [Registry.get, he']
+      · simp only [Registry.get, List.find?_cons, he', decide_false] at ih ⊢
+        exact ih
+
+/-- **A metadata update keeps every field it does not supply** and replaces the ones it does. -/
+theorem C17_merge_fields (old new : IngressInfo) :
+    (old.merge new).unitName = new.unitName.or old.unitName ∧ (old.merge new).parent = new.parent.or old.parent ∧
+    (old.merge new).remoteAddr = new.remoteAddr.or old.remoteAddr ∧ (old.merge new).remoteAsn = new.remoteAsn.or old.remoteAsn ∧
+    (old.merge new).filename = new.filename.or old.filename ∧ (old.merge new).name = new.name.or old.name ∧
+    (old.merge new).desc = new.desc.or old.desc := ⟨rfl, rfl, rfl, rfl, rfl, rfl, rfl⟩
+
+/-- **C17 (mqtt, metadata is current), for every history.** Split any history of arriving updates and
+    register edits at any point: what the target publishes for the rest is exactly what a target
+    started at that moment, on the register as the edits so far left it, publishes. Nothing about a
+    source is remembered from earlier messages. -/
+theorem C17_mqtt_session_split (comp tmpl : Str) (reg : Registry) (pre post : List Ev) :
+    session comp tmpl reg (pre ++ post) =
+      session comp tmpl reg pre ++ session comp tmpl (regAfter reg pre) post := by
+  induction pre generalizing reg with
+  | nil => rfl
+  | cons e es ih =>
+    cases e with
+    | upd u => simp [session, regAfter, ih]
+    | info id i => simp [session, regAfter, ih]
+
+/-- Corollary in the property's words: the messages published for an update that arrives after any
+    history are those of `C17_mqtt` with the register *as it is then*: for a message of source `id`
+    the attached info is `(regAfter reg pre).get id`. -/
+theorem C17_mqtt_metadata_current (comp tmpl : Str) (reg : Registry) (pre : List Ev) (u : Update) :
+    session comp tmpl reg (pre ++ [.upd u]) =
+      session comp tmpl reg pre ++ directUpdate comp tmpl (regAfter reg pre) u := by
+  rw [C17_mqtt_session_split]; simp [session]
+
+/-- non-vacuity: source 1 publishes, learns its AS, publishes again: the second message carries the AS. -/
+example (tmpl : Str) :
+    session ['m'] tmpl [(1, ⟨none, none, none, none, none, some ['r'], none⟩)]
+      [.upd (.outputStream [⟨['m'], ['a'], some 1, .custom 1 2⟩]),
+       .info 1 ⟨none, none, none, some 65000, none, none, none⟩,
+       .upd (.outputStream [⟨['m'], ['b'], some 1, .custom 3 4⟩])]
+    = [(fillTemplate ['a'] tmpl, payload (some ⟨none, none, none, none, none, some ['r'], none⟩) (.custom 1 2)),
+       (fillTemplate ['b'] tmpl, payload (some ⟨none, none, none, some 65000, none, some ['r'], none⟩) (.custom 3 4))] := by
+  simp [session, directUpdate, publishAll, toMsg, Registry.update, Registry.get, IngressInfo.merge]
+
 end Rotonda.OutStream
